@@ -1250,6 +1250,31 @@ class CodeGenerator(NodeVisitor):
             iteration_indicator = self.temporary_identifier()
             self.writeline(f"{iteration_indicator} = 1")
 
+        def write_iter() -> None:
+            if node.test:
+                self.write(f"{loop_filter_func}(")
+            if node.recursive:
+                self.write("reciter")
+            else:
+                if self.environment.is_async and not extended_loop:
+                    self.write("auto_aiter(")
+                self.visit(node.iter, frame)
+                if self.environment.is_async and not extended_loop:
+                    self.write(")")
+            if node.test:
+                self.write(")")
+
+        # In async mode the loop filter is an async generator. Keep a
+        # reference so it is closed when the loop is left early.
+        loop_filter_gen = None
+
+        if node.test and self.environment.is_async:
+            loop_filter_gen = self.temporary_identifier()
+            self.writeline(f"{loop_filter_gen} = ", node)
+            write_iter()
+            self.writeline("try:")
+            self.indent()
+
         self.writeline(self.choose_async("async for ", "for "), node)
         self.visit(node.target, loop_frame)
         if extended_loop:
@@ -1257,18 +1282,10 @@ class CodeGenerator(NodeVisitor):
         else:
             self.write(" in ")
 
-        if node.test:
-            self.write(f"{loop_filter_func}(")
-        if node.recursive:
-            self.write("reciter")
+        if loop_filter_gen is not None:
+            self.write(loop_filter_gen)
         else:
-            if self.environment.is_async and not extended_loop:
-                self.write("auto_aiter(")
-            self.visit(node.iter, frame)
-            if self.environment.is_async and not extended_loop:
-                self.write(")")
-        if node.test:
-            self.write(")")
+            write_iter()
 
         if node.recursive:
             self.write(", undefined, loop_render_func, depth):")
@@ -1286,6 +1303,10 @@ class CodeGenerator(NodeVisitor):
         self.leave_frame(
             loop_frame, with_python_scope=node.recursive and not node.else_
         )
+
+        if loop_filter_gen is not None:
+            self.outdent()
+            self.writeline(f"finally: await {loop_filter_gen}.aclose()")
 
         if node.else_:
             self.writeline(f"if {iteration_indicator}:")
